@@ -32,7 +32,7 @@ PROSE = [
     "callable or `compile`", "a `os`.`system` thing", "`print`", "`quit`", "`exit` or `help`", "str or `input`",
 ]
 KINDS = ("docstring_parse", "ir_emit_parse", "module_parse", "doctrans", "gen", "sync", "sync_properties",
-         "docstring_prose", "selftest_input_eval", "route_docstring")
+         "docstring_prose", "selftest_input_eval", "route_docstring", "gen_routes")
 # scalars for the OpenAPI ```yml block of a route docstring: YAML's python-specific tags name callables / modules
 YAML_PAYLOADS = [
     '!!python/object/apply:os.system ["touch SENTINEL_yaml_system"]',
@@ -247,6 +247,18 @@ def build(i, r, scratch):
                 pass
             cdd.compound.openapi.gen_openapi.openapi_bulk(app_name="rest_api", model_paths=[pm], routes_paths=[pr])
         return {"kind": kind, "shown": route_src, "call": call}
+    if kind == "gen_routes":
+        # the real command on a model file whose column defaults / comments / docstring are payloads, and whose module
+        # level has side effects: the model file is named by path and must be read, never imported
+        name = r.choice(("Config", "Node", "Thing"))
+        fields = {"name": name, "lname": name.lower(), "pk": r.choice(("name", "ident", "key")), "code": r.choice(PAYLOADS)}
+        model_src = ROUTE_MODEL_TPL % fields + "\nopen(%r, 'w').close()\n" % os.path.join(scratch, "SENTINEL_model_imported")
+        ast.parse(model_src)
+        pm = write(scratch, "gr_models_%d.py" % i, model_src)
+        routes = os.path.join(scratch, "gr_routes_%d.py" % i)
+        argv = ["gen_routes", "--crud", r.choice(("CRD", "CR", "C", "R", "D")), "--app-name", "rest_api", "--model-path",
+                r.choice((pm, os.path.basename(pm)[:-3])), "--model-name", name, "--routes-path", routes]
+        return {"kind": kind, "shown": model_src, "allowed_writes": [routes], "call": lambda: cdd.__main__.main(argv)}
     src = adversarial_module(r, scratch)
     ast.parse(src)
     if kind == "module_parse":
